@@ -377,6 +377,79 @@ theorem dropped_row_exact_at_breakdown (htol : 0 < tol) (hr0 : r0 ≠ 0) (hsM : 
       (by rw [hb]; exact beta_smul_q0 hinv hr0) (relation_padded htol hinv hnc) hinv.hHess _ hfom,
     hq, smul_zero]
 
+/-- after an exact breakdown in the last executed step the coefficients solve the square system
+`H_s y = β e₁` — for either switch (the extra row `s` of `H̃` is zero) -/
+theorem fom_equations_at_breakdown (htol : 0 < tol) (hr0 : r0 ≠ 0) (hsM : s ≤ M) (hs : 0 < s)
+    (hbreak : (colAt A M tol r0 s).beta (s - 1) = 0)
+    (hmask : MaskExact drop M tol s (colAt A M tol r0 s))
+    (hsolve : SolvesSystem M
+      (normalMatrix drop M (padding drop M ((tol : ℝ) : 𝕜) (colAt A M tol r0 s)) (colAt A M tol r0 s))
+      (normalRhs M (colAt A M tol r0 s))
+      (solve (normalMatrix drop M (padding drop M ((tol : ℝ) : 𝕜) (colAt A M tol r0 s)) (colAt A M tol r0 s))
+        (normalRhs M (colAt A M tol r0 s))))
+    (hinj : ∀ z : Nat → 𝕜,
+      (∀ a, a < s → ∑ r ∈ range s, (starRingEnd 𝕜) ((colAt A M tol r0 s).h r a) * z r = 0) →
+        ∀ r, r < s → z r = 0) :
+    ∀ l, l < s → resCoef s (colAt A M tol r0 s).h ((‖r0‖ : ℝ) : 𝕜)
+      (yOf M tol r0 solve drop (colAt A M tol r0 s)) l = 0 := by
+  have hinv := inv_colAfter A M r0 tol hr0 htol s hsM
+  set c := colAt A M tol r0 s with hc
+  have hR : s ≤ hRows drop M := by unfold hRows; split <;> omega
+  apply hinj
+  intro a ha
+  have hne := normal_equations (solve := solve) hinv hsM hmask hsolve a ha
+  rw [← hne]
+  apply sum_subset
+  · intro l hl; rw [mem_range] at hl ⊢; omega
+  · intro l _ hl
+    rw [mem_range] at hl
+    have hz : c.h l a = 0 := by
+      by_cases h : a + 1 < l
+      · exact hinv.hHess a l h
+      · have hla : l = s ∧ a = s - 1 := by omega
+        have := (hinv.subdiag_nonneg (s - 1)).1
+        rw [hbreak] at this
+        rw [hla.1, hla.2]
+        have e : s - 1 + 1 = s := by omega
+        rw [e] at this
+        rw [this]; simp
+    rw [hz, map_zero, zero_mul]
+
+/-- **exactness after an exact breakdown** (`m ≥` grade of `r₀`), either switch: the returned
+iterate solves the system -/
+theorem exact_at_breakdown (htol : 0 < tol) (hr0 : r0 ≠ 0) (hsM : s ≤ M) (hs : 0 < s)
+    (hun : ∀ i, i + 1 < s → tol / 2 ≤ (colAt A M tol r0 s).beta i)
+    (hbreak : (colAt A M tol r0 s).beta (s - 1) = 0)
+    (hmask : MaskExact drop M tol s (colAt A M tol r0 s))
+    (hsolve : SolvesSystem M
+      (normalMatrix drop M (padding drop M ((tol : ℝ) : 𝕜) (colAt A M tol r0 s)) (colAt A M tol r0 s))
+      (normalRhs M (colAt A M tol r0 s))
+      (solve (normalMatrix drop M (padding drop M ((tol : ℝ) : 𝕜) (colAt A M tol r0 s)) (colAt A M tol r0 s))
+        (normalRhs M (colAt A M tol r0 s))))
+    (hinj : ∀ z : Nat → 𝕜,
+      (∀ a, a < s → ∑ r ∈ range s, (starRingEnd 𝕜) ((colAt A M tol r0 s).h r a) * z r = 0) →
+        ∀ r, r < s → z r = 0)
+    (b x0 : E) (hb : b - A x0 = r0) :
+    b - A (x0 + combine M (colAt A M tol r0 s)
+        (coeffs solve drop M ((tol : ℝ) : 𝕜) ((‖r0‖ : ℝ) : 𝕜) (colAt A M tol r0 s))) = 0 := by
+  have hfom := fom_equations_at_breakdown (solve := solve) (drop := drop) htol hr0 hsM hs hbreak
+    hmask hsolve hinj
+  have hinv := inv_colAfter A M r0 tol hr0 htol s hsM
+  set c := colAt A M tol r0 s with hc
+  have hnc : NoClip tol s c := by
+    intro i hi
+    by_cases h : i + 1 < s
+    · exact Or.inr (hun i h)
+    · have : i = s - 1 := by omega
+      rw [this]; exact Or.inl hbreak
+  have hq : c.q s = 0 := by
+    have := hinv.next_zero_of_beta_zero htol (s - 1) (by omega) hbreak
+    rwa [Nat.sub_add_cancel hs] at this
+  rw [combine_yOf hinv.z0 hmask hsM,
+    fom_residual A s c.q c.h ((‖r0‖ : ℝ) : 𝕜) hs b x0
+      (by rw [hb]; exact beta_smul_q0 hinv hr0) (relation_padded htol hinv hnc) hinv.hHess _ hfom,
+    hq, smul_zero]
+
 end column
 
 end GMRES
